@@ -173,6 +173,26 @@ type invEnvKind int
 // phiVal gives the term to use for each header phi.
 func (f *frame) invEnv(li *loopInfo, st *State, phiTerm func(p *ssa.Phi) string) *exprEnv {
 	env := f.baseEnv(st)
+	// a parameter reassigned before the loop (if p == nil { p = ... }): the invariant speaks about the value the
+	// variable has at the loop, i.e. the join that dominates the header; $param_<name> is the entry value
+	for _, prm := range f.fn.Params {
+		var best *ssa.Phi
+		for _, x := range f.names[prm.Name()] {
+			ph, ok := x.(*ssa.Phi)
+			if !ok || ph.Block() == li.header || !ph.Block().Dominates(li.header) {
+				continue
+			}
+			if v, has := f.vals[ph]; has && v.term != "" && (best == nil || best.Block().Dominates(ph.Block())) {
+				best = ph
+			}
+		}
+		if best != nil {
+			if cur, ok := env.vars[prm.Name()]; ok {
+				env.vars["ζparam_"+prm.Name()] = cur
+			}
+			env.vars[prm.Name()] = cval{term: f.vals[best].term, typ: best.Type()}
+		}
+	}
 	// variables carried by enclosing loops keep the value they have in the current iteration of those loops
 	var outer []*loopInfo
 	for _, o := range f.loops {
